@@ -112,6 +112,316 @@ func c19ZErr(err error) string {
 	return "err other:" + s
 }
 
+
+// ---- IPRouteBody as a VALUE: every message flag the version / flavour knows, source prefix,
+// nexthop groups, labels, weights, backup nexthops, SR-TE colour, opaque data. ZAPI 5 and 6 use
+// the same zapi_route layout in both directions, so decode(serialize(v)) must give v back.
+
+func c19Addr(r *vRand, v6 bool, plen uint8) netip.Addr {
+	// octets behind the prefix length are zero (they are not on the wire); bits inside the last
+	// octet are arbitrary, and no octet before it is zero, so that a stale scratch buffer shows
+	n := 4
+	if v6 {
+		n = 16
+	}
+	b := make([]byte, n)
+	for i := 0; i < (int(plen)+7)/8; i++ {
+		b[i] = byte(1 + r.intn(255))
+	}
+	a, _ := netip.AddrFromSlice(b)
+	return a
+}
+
+func c19Nexthop(r *vRand, v uint8, sw Software, v6 bool, msg MessageFlag, backup bool) Nexthop {
+	frr := func(min float64) bool { return v == 6 && sw.name == "frr" && sw.version >= min }
+	n := Nexthop{VrfID: uint32(r.pick(0, 1, 7, int(r.u32())))}
+	gate := func(six bool) netip.Addr {
+		if six {
+			var a [16]byte
+			binary.BigEndian.PutUint64(a[:], r.next()|1<<61)
+			binary.BigEndian.PutUint64(a[8:], r.next())
+			return netip.AddrFrom16(a)
+		}
+		var a [4]byte
+		binary.BigEndian.PutUint32(a[:], r.u32()|1<<24)
+		return netip.AddrFrom4(a)
+	}
+	switch r.intn(8) {
+	case 0:
+		n.Type, n.Ifindex = nexthopTypeIFIndex, r.u32()
+	case 1:
+		n.Type, n.blackholeType = nexthopTypeBlackhole, uint8(r.intn(4))
+	case 2, 3:
+		if v6 {
+			n.Type, n.Gate, n.Ifindex = nexthopTypeIPv6IFIndex, gate(true), r.u32()
+		} else {
+			n.Type, n.Gate, n.Ifindex = nexthopTypeIPv4IFIndex, gate(false), r.u32()
+		}
+	default:
+		if v6 {
+			n.Type, n.Gate = nexthopTypeIPv6, gate(true)
+		} else {
+			n.Type, n.Gate = nexthopTypeIPv4, gate(false)
+		}
+		if frr(7.3) { // these flavours carry an ifindex with every IP nexthop
+			n.Ifindex = r.u32()
+		}
+	}
+	labelled := false
+	if frr(7.3) {
+		labelled = r.chance(40)
+	} else {
+		labelled = msg&MessageLabel > 0
+	}
+	if labelled {
+		n.LabelNum = uint8(r.intn(4))
+		if frr(7.3) && n.LabelNum == 0 {
+			n.LabelNum = 1
+		}
+		for i := 0; i < int(n.LabelNum); i++ {
+			n.MplsLabels = append(n.MplsLabels, uint32(16+r.intn(1<<20-16)))
+		}
+	}
+	if frr(7.3) && r.chance(40) {
+		n.Weight = uint32(1 + r.intn(255))
+	}
+	if frr(7.5) && !backup && r.chance(30) {
+		n.backupNum = uint8(1 + r.intn(3))
+		for i := 0; i < int(n.backupNum); i++ {
+			n.backupIndex = append(n.backupIndex, uint8(r.intn(4)))
+		}
+	}
+	if frr(7.5) && msg&messageSRTE > 0 {
+		n.srteColor = r.u32()
+	}
+	return n
+}
+
+func c19RouteValue(r *vRand, v uint8, sw Software) *IPRouteBody {
+	frr := func(min float64) bool { return v == 6 && sw.name == "frr" && sw.version >= min }
+	v6 := r.chance(50)
+	width := 32
+	if v6 {
+		width = 128
+	}
+	plen := uint8(r.pick(0, 1, 7, 8, 9, 23, 24, 31, 32, r.intn(width+1), r.intn(width+1)))
+	if int(plen) > width {
+		plen = uint8(width)
+	}
+	b := &IPRouteBody{Type: RouteType(r.pick(int(RouteBGP), int(RouteStatic), int(routeConnect), int(routeKernel))), instance: uint16(r.pick(0, 0, 1, 65535)),
+		Safi: Safi(r.pick(int(SafiUnicast), int(SafiUnicast), int(safiMulticast))), Prefix: Prefix{PrefixLen: plen, Prefix: c19Addr(r, v6, plen)}}
+	b.Prefix.Family = familyFromPrefix(b.Prefix.Prefix)
+	if r.chance(30) {
+		b.Flags = FlagIBGP.ToEach(v, sw) | FlagAllowRecursion
+	}
+	var msg MessageFlag
+	set := func(pct int, f MessageFlag) bool {
+		if r.chance(pct) {
+			msg |= f.ToEach(v, sw)
+			return true
+		}
+		return false
+	}
+	set(85, MessageNexthop)
+	if set(50, MessageDistance) {
+		b.Distance = uint8(r.next())
+	}
+	if set(50, MessageMetric) {
+		b.Metric = r.u32()
+	}
+	if set(40, messageTag) {
+		b.tag = r.u32()
+	}
+	if set(40, MessageMTU) {
+		b.Mtu = r.u32()
+	}
+	if set(45, messageSRCPFX) {
+		// shorter than, equal to and longer than the destination prefix, not only multiples of 8
+		sl := uint8(r.pick(0, 1, 8, 9, 16, 17, 32, int(plen), int(plen)/2, r.intn(width+1)))
+		if int(sl) > width {
+			sl = uint8(width)
+		}
+		b.srcPrefix = Prefix{PrefixLen: sl, Prefix: c19Addr(r, v6, sl)}
+	}
+	if !frr(7.3) {
+		set(35, MessageLabel)
+	}
+	if set(40, messageTableID) {
+		b.tableID = r.u32()
+	}
+	if frr(7.5) {
+		set(30, messageSRTE)
+	}
+	if frr(8) {
+		if set(30, messageNhg) {
+			b.nhgid = r.u32()
+		}
+		if set(25, messageOpaque) {
+			b.opaque.length = uint16(r.pick(0, 1, 16, 1024, r.intn(1025)))
+			for i := 0; i < int(b.opaque.length); i++ {
+				b.opaque.data[i] = byte(r.next())
+			}
+		}
+	}
+	b.Message = msg
+	if msg&MessageNexthop > 0 {
+		for k := r.pick(0, 1, 1, 2, 3); k > 0; k-- {
+			b.Nexthops = append(b.Nexthops, c19Nexthop(r, v, sw, v6, msg, false))
+		}
+	}
+	if frr(7.4) && r.chance(30) {
+		b.Message |= messageBackupNexthops
+		for k := r.pick(0, 1, 2); k > 0; k-- {
+			b.backupNexthops = append(b.backupNexthops, c19Nexthop(r, v, sw, v6, b.Message, true))
+		}
+	}
+	return b
+}
+
+func c19NexthopStr(n Nexthop, v uint8, sw Software) string {
+	t := n.Type
+	if v == 6 && sw.name == "frr" && sw.version >= 7.3 {
+		t = t.ipToIPIFIndex() // how these flavours treat an IP nexthop
+	}
+	gate := "-"
+	if n.Gate.IsValid() && !n.Gate.IsUnspecified() {
+		gate = n.Gate.String()
+	}
+	return fmt.Sprintf("{type %d vrf %d gate %s if %d bh %d labels %v weight %d backup %v srte %d rmac %x}", t, n.VrfID, gate, n.Ifindex, n.blackholeType,
+		append([]uint32{}, n.MplsLabels...), n.Weight, append([]uint8{}, n.backupIndex...), n.srteColor, n.rmac)
+}
+
+// every field that is on the wire, as text
+func c19RouteStr(b *IPRouteBody, v uint8, sw Software) string {
+	var sb strings.Builder
+	fmt.Fprintf(&sb, "type %d instance %d flags %#x message %#x safi %d prefix %s/%d", b.Type, b.instance, uint64(b.Flags), uint32(b.Message), b.Safi, b.Prefix.Prefix, b.Prefix.PrefixLen)
+	if b.Message&messageSRCPFX.ToEach(v, sw) > 0 {
+		fmt.Fprintf(&sb, " src %s/%d", b.srcPrefix.Prefix, b.srcPrefix.PrefixLen)
+	}
+	fmt.Fprintf(&sb, " nhg %d nexthops [", b.nhgid)
+	for _, n := range b.Nexthops {
+		sb.WriteString(c19NexthopStr(n, v, sw))
+	}
+	sb.WriteString("] backup [")
+	for _, n := range b.backupNexthops {
+		sb.WriteString(c19NexthopStr(n, v, sw))
+	}
+	fmt.Fprintf(&sb, "] distance %d metric %d tag %d mtu %d table %d opaque %x", b.Distance, b.Metric, b.tag, b.Mtu, b.tableID, b.opaque.data[:b.opaque.length])
+	return sb.String()
+}
+
+func c19RouteRoundTrip(o *vOut, dog *c19Dog, r *vRand, v uint8, fl string) {
+	sw := NewSoftware(v, fl)
+	val := c19RouteValue(r, v, sw)
+	cmd := RouteAdd
+	if r.chance(20) {
+		cmd = RedistributeRouteAdd
+	}
+	val.API = cmd.ToEach(v, sw)
+	want := c19RouteStr(val, v, sw)
+	var b0 []byte
+	res := dog.run("IPRouteBody value round trip", nil, func() string {
+		var err error
+		b0, err = val.serialize(v, sw)
+		if err != nil {
+			return "serr:" + err.Error()
+		}
+		got := &IPRouteBody{API: val.API}
+		if err := got.decodeFromBytes(b0, v, sw); err != nil {
+			return "perr:" + err.Error()
+		}
+		if g := c19RouteStr(got, v, sw); g != want {
+			return "fields:" + g
+		}
+		b1, err := got.serialize(v, sw)
+		if err != nil {
+			return "serr2:" + err.Error()
+		}
+		if !bytes.Equal(b0, b1) {
+			return "differs:" + c19Hex(b1)
+		}
+		return "ok"
+	})
+	// which rarely used parts this value exercises
+	for _, f := range []struct {
+		n string
+		f MessageFlag
+	}{{"srcpfx", messageSRCPFX}, {"tag", messageTag}, {"mtu", MessageMTU}, {"tableid", messageTableID}, {"distance", MessageDistance}} {
+		if val.Message&f.f.ToEach(v, sw) > 0 {
+			o.stat("route_value_"+f.n, 1)
+		}
+	}
+	if val.Message&messageSRCPFX.ToEach(v, sw) > 0 && val.srcPrefix.PrefixLen/8 < val.Prefix.PrefixLen/8 {
+		o.stat("route_value_srcpfx_shorter_than_dst", 1)
+	}
+	if len(val.backupNexthops) > 0 {
+		o.stat("route_value_backup_nexthops", 1)
+	}
+	o.stat(fmt.Sprintf("route_value_v%d_%s", v, strings.SplitN(res, ":", 2)[0]), 1)
+	if res != "ok" {
+		if res == "panic" {
+			res = "panic:"
+		}
+		o.fail(fmt.Sprintf("zapi-body-roundtrip:route:v%d:%s", v, strings.SplitN(res, ":", 2)[0]),
+			map[string]any{"flavour": fl, "value": want, "bytes": c19Hex(b0), "outcome": res[:min(len(res), 900)]})
+	}
+}
+
+// NexthopRegisterBody as a value (ZAPI 3..6, every flavour): serialize -> decode gives it back
+func c19RegisterRoundTrip(o *vOut, dog *c19Dog, r *vRand, v uint8, fl string) {
+	sw := NewSoftware(v, fl)
+	val := &NexthopRegisterBody{api: nexthopRegister.ToEach(v, sw)}
+	str := func(b *NexthopRegisterBody) string {
+		var sb strings.Builder
+		for _, n := range b.Nexthops {
+			fmt.Fprintf(&sb, "{connected %d family %d prefix %s}", n.connected, n.Family, n.Prefix)
+		}
+		return sb.String()
+	}
+	for k := 1 + r.intn(3); k > 0; k-- {
+		n := &RegisteredNexthop{connected: uint8(r.intn(2)), Family: syscall.AF_INET}
+		var a4 [4]byte
+		binary.BigEndian.PutUint32(a4[:], r.u32()|1<<24)
+		n.Prefix = netip.AddrFrom4(a4)
+		if r.chance(50) {
+			var a [16]byte
+			binary.BigEndian.PutUint64(a[:], r.next()|1<<61)
+			binary.BigEndian.PutUint64(a[8:], r.next())
+			n.Family, n.Prefix = syscall.AF_INET6, netip.AddrFrom16(a)
+		}
+		val.Nexthops = append(val.Nexthops, n)
+	}
+	want := str(val)
+	var b0 []byte
+	res := dog.run("NexthopRegisterBody value round trip", nil, func() string {
+		var err error
+		b0, err = val.serialize(v, sw)
+		if err != nil {
+			return "serr:" + err.Error()
+		}
+		got := &NexthopRegisterBody{api: val.api}
+		if err := got.decodeFromBytes(b0, v, sw); err != nil {
+			return "perr:" + err.Error()
+		}
+		if g := str(got); g != want {
+			return "fields:" + g
+		}
+		b1, err := got.serialize(v, sw)
+		if err != nil || !bytes.Equal(b0, b1) {
+			return "differs:" + c19Hex(b1)
+		}
+		return "ok"
+	})
+	o.stat(fmt.Sprintf("register_value_v%d_%s", v, strings.SplitN(res, ":", 2)[0]), 1)
+	if res != "ok" {
+		if res == "panic" {
+			res = "panic:"
+		}
+		o.fail(fmt.Sprintf("zapi-body-roundtrip:nexthop_register:v%d:%s", v, strings.SplitN(res, ":", 2)[0]),
+			map[string]any{"flavour": fl, "value": want, "bytes": c19Hex(b0), "outcome": res[:min(len(res), 600)]})
+	}
+}
+
 var c19Flavours = map[uint8][]string{
 	2: {"", "quagga"}, 3: {"", "quagga"}, 4: {"", "frr4", "frr3"},
 	5: {"", "frr5", "frr4", "cumulus"},
@@ -268,6 +578,17 @@ func TestVerifC19(t *testing.T) {
 				binary.BigEndian.PutUint16(mb, uint16(r.pick(0, 3, 5, 6, 7, 8, 9, 10, 11)))
 			}
 			dec(mb, "mut")
+		}
+
+		// ---- IPRouteBody values (ZAPI 5 / 6, every flavour)
+		for k := 0; k < 2; k++ {
+			rv := uint8(5 + r.intn(2))
+			c19RouteRoundTrip(o, dog, r, rv, c19Flavours[rv][r.intn(len(c19Flavours[rv]))])
+		}
+
+		{
+			gv := uint8(3 + r.intn(4))
+			c19RegisterRoundTrip(o, dog, r, gv, c19Flavours[gv][r.intn(len(c19Flavours[gv]))])
 		}
 
 		// ---- messages the daemon constructs, per version and flavour
